@@ -119,4 +119,15 @@ CHECKS = {
           "track, zero-velocity offs, the fixture files, PYTHONHASHSEED sweep on thorough.",
   "note": "Trusted: vmon/refmodels/midi_model.py, mido. Exact .5 ticks accept both neighbours; touching notes in non-chronological list order are don't-care.",
  },
+ "C09": {
+  "technique": "hooks on new_part_from_path / get_paths / unfold_part_*: segment-copy checker, path-validity checker against an independent reading of the marks, exact-path oracle for repeat/volta structures, argument snapshot",
+  "text": "Every part built by new_part_from_path is rebuilt independently from the original and the path (notes, rests, grace notes "
+          "per visit with shifted times and visit-suffixed ids; other classes one-sided), its length, the absence of jump objects and "
+          "of references into the original are checked, and the path is validated step by step against the successor relation "
+          "derived from the registered repeats/endings/navigation marks. For non-nested repeat/volta structures the maximal and "
+          "minimal paths and the 2^r variant count are compared with the notated structure. The argument is snapshotted around "
+          "every unfold entry point. Workload: block-grammar parts with voltas '1,2'/'3', nested repeats, D.C./D.S./coda/fine, "
+          "boundary-crossing ties and slurs, division/signature changes; unfold fixtures.",
+  "note": "Trusted: vmon/refmodels/repeats.py, vmon/snapshot.py. Open known findings: Segment objects cached on the argument; segment that is both leap source and destination; overhanging slur.",
+ },
 }
